@@ -49,7 +49,7 @@ func isHandledSelectStmt(l *lexer, keyspace Identifier) (handled bool, stmt Stat
 		return false, nil, err
 	}
 
-	selectStmt := &SelectStatement{Keyspace: "system", Table: table.id}
+	selectStmt := &SelectStatement{Keyspace: "system", Table: table.ID()}
 
 	// This only parses the selectors if this is a query handled by the proxy
 
